@@ -36,7 +36,11 @@ POOL = []
 
 
 def decl(name, src, roots, func=False):
-    POOL.append(dict(name=name, src=src, roots=roots, func=func))
+    # "@name" entries of REG are packet INSTANCES the user passed to Ref(...) as prototype and still holds:
+    # the library takes its snapshot of them when the class is defined, so mutating them later must not matter
+    import re as _re
+    protos = sorted(set(_re.findall(r"REG\['(@\w+)'\]", src)))
+    POOL.append(dict(name=name, src=src, roots=roots, func=func, protos=protos))
 
 
 # 1 ---------------------------------------------------------------------------------------
@@ -119,13 +123,16 @@ class Pt8(Packet):
     x = Int(1)
     y = Int(1)
 
+origin8 = Pt8(x=1, y=2)
+
 class L8(Packet):
     __bisturi__ = OPT
     begin = Ref(Pt8)
-    end = Ref(Pt8(x=1, y=2))
+    end = Ref(origin8)
     n = Int(1)
 REG['Pt8'] = Pt8
 REG['L8'] = L8
+REG['@origin8'] = origin8
 """, {"L8": lambda ch, u: u.bytes(5)})
 
 # 9  (the documented SOCKS pattern: a chooses table holding field and packet instances)
@@ -300,6 +307,7 @@ class RB19(Packet):
 REG['Sub19'] = Sub19
 REG['RA19'] = RA19
 REG['RB19'] = RB19
+REG['@proto19'] = proto19
 """, {"RA19": lambda ch, u: _b(u.byte()) + (lambda n: _b(n) + u.bytes(n))(ch.draw("n", 4)),
       "RB19": lambda ch, u: b"".join((lambda n: _b(n) + u.bytes(n))(ch.draw("n", 4)) for _ in range(3))})
 
@@ -316,16 +324,21 @@ def make20():
         num = Int(1)
         objs = Int(1).repeated(num)
 
+    origin20 = Pt20(x=5)
+    bag20 = Bag20(num=2, objs=[1, 2])
+
     class F20(Packet):
         __bisturi__ = OPT
         t = Int(1)
-        p = Ref(Pt20(x=5))
-        b = Ref(Bag20(num=2, objs=[1, 2]))
+        p = Ref(origin20)
+        b = Ref(bag20)
         bags = Ref(Bag20).repeated(2, default=[Bag20(num=1, objs=[4]), Bag20()])
         opt = Ref(Pt20).when(t == 1, default=Pt20(y=6))
     REG['Pt20'] = Pt20
     REG['Bag20'] = Bag20
     REG['F20'] = F20
+    REG['@origin20'] = origin20
+    REG['@bag20'] = bag20
 make20()
 """, {"F20": lambda ch, u: (lambda x: _b(x) + u.bytes(2) + (lambda n: _b(n) + u.bytes(n))(ch.draw("n", 3)) + b"".join((lambda n: _b(n) + u.bytes(n))(ch.draw("n", 3)) for _ in range(2)) + (u.bytes(2) if x == 1 else b""))(1 + ch.draw("x", 2))}, func=True)
 
